@@ -142,29 +142,63 @@ def run(db, rep):
             continue        # not serialisable (PPI, PKTAP)
         bad = None
         n_cmp = 0
-        for i, r in enumerate(rt):
+
+        def guarded(t):
+            return len(t) > 8 and bool(t[8])
+
+        def pair(r, wv, pos):
+            rn, wn = member_name(r[2]), member_name(wv[2])
+            if rn and wn and rn != wn:
+                return "position %d: the constructor reads `%s`, write_serialization writes `%s`" % (pos, rn, wn)
+            if r[3].is_const() and wv[3].is_const() and r[3].k != wv[3].k:
+                return "position %d: %d byte(s) are read into `%s` but %d byte(s) are written for `%s`" % (pos, r[3].k, r[2], wv[3].k, wv[2])
+            gb = guard_gap(fxw, r, wv) if rn and wn else None
+            if gb:
+                return "`%s` is read when %s but written only when %s: %s" % (rn, gb[0], gb[1], gb[2])
+            return None
+        i = j = 0
+        while i < len(rt):
+            r = rt[i]
             if r[1] == "rest" or has_atoms(r[3]):
                 break
-            if i < len(wt) and has_atoms(wt[i][3]):
+            if j < len(wt) and has_atoms(wt[j][3]):
                 break       # a variable-length item of the writer holds whatever follows (e.g. BootP::vend_ for DHCP)
-            if i >= len(wt):
-                if i > 0 and has_atoms(wt[-1][3]):
+            if j >= len(wt):
+                if j > 0 and has_atoms(wt[-1][3]):
                     break
                 bad = "the constructor reads `%s` (%s bytes) but write_serialization writes nothing at that position" % (r[2], r[3])
                 break
-            wv = wt[i]
+            if guarded(r) and guarded(wt[j]) and member_name(r[2]) and member_name(r[2]) != member_name(wt[j][2]):
+                # alternatives (members handled under conditions): the order in which the branches are WRITTEN DOWN is free.
+                # The run of guarded reads is matched by name against the run of guarded writes at the same place.
+                i2 = i
+                while i2 < len(rt) and guarded(rt[i2]) and rt[i2][1] != "rest" and not has_atoms(rt[i2][3]):
+                    i2 += 1
+                j2 = j
+                while j2 < len(wt) and guarded(wt[j2]) and not has_atoms(wt[j2][3]):
+                    j2 += 1
+                wrun = list(wt[j:j2])
+                for r_ in rt[i:i2]:
+                    hit = [x for x in wrun if member_name(x[2]) == member_name(r_[2])]
+                    if not hit:
+                        bad = "position %d: the constructor reads `%s` (in one of its branches), write_serialization writes %s there" % (
+                            i + 1, member_name(r_[2]), sorted(set(member_name(x[2]) or "?" for x in wt[j:j2])))
+                        break
+                    wrun.remove(hit[0])
+                    bad = pair(r_, hit[0], i + 1)
+                    n_cmp += 1
+                    if bad:
+                        break
+                if bad:
+                    break
+                i, j = i2, j2
+                continue
             n_cmp += 1
-            rn, wn = member_name(r[2]), member_name(wv[2])
-            if rn and wn and rn != wn:
-                bad = "position %d: the constructor reads `%s`, write_serialization writes `%s`" % (i + 1, rn, wn)
+            bad = pair(r, wt[j], i + 1)
+            if bad:
                 break
-            if r[3].is_const() and wv[3].is_const() and r[3].k != wv[3].k:
-                bad = "position %d: %d byte(s) are read into `%s` but %d byte(s) are written for `%s`" % (i + 1, r[3].k, r[2], wv[3].k, wv[2])
-                break
-            gb = guard_gap(fxw, r, wv) if rn and wn else None
-            if gb:
-                bad = "`%s` is read when %s but written only when %s: %s" % (rn, gb[0], gb[1], gb[2])
-                break
+            i += 1
+            j += 1
         # members that both sides handle after a variable-length part: compared by name
         if not bad:
             rnames = {}
